@@ -147,7 +147,9 @@ class Builder:
                 constants[obj.name] = obj
                 self.add_to_context(context, obj.name, obj)
             elif isinstance(obj, Macro):
-                obj = rebuild_macro_in_context(obj, context, gate_context)
+                obj = rebuild_macro_in_context(
+                    obj, context, gate_context, self.requires_defined_gates()
+                )
                 macros[obj.name] = obj
                 self.add_to_context(gate_context, obj.name, obj)
             elif (
@@ -159,7 +161,9 @@ class Builder:
             ):
                 # Like a macro, a statement may have been built before the
                 # macros it calls were in scope.
-                obj = rebuild_macro_in_context(obj, context, gate_context)
+                obj = rebuild_macro_in_context(
+                    obj, context, gate_context, self.requires_defined_gates()
+                )
                 statements.append(obj)
             elif isinstance(obj, UsePulsesStatement):
                 usepulses.append(obj)
@@ -315,17 +319,17 @@ class Builder:
                 )
             return gate_def
 
-        is_anonymous_gate_allowed = (
-            self.inject_pulses is None
-        ) and not self.autoload_pulses
-
-        if not is_anonymous_gate_allowed:
+        if self.requires_defined_gates():
             raise JaqalError(f"No gate {name} defined")
         gate_def = GateDefinition(
             name, parameters=[Parameter(f"p{i}", None) for i in range(arg_count)]
         )
         gate_context[name] = gate_def
         return gate_def
+
+    def requires_defined_gates(self):
+        """Whether every gate called must be a native gate or a macro."""
+        return self.inject_pulses is not None or self.autoload_pulses
 
     def build_loop(self, sexpression, context, gate_context):
         count, block = sexpression.args
@@ -427,7 +431,7 @@ def contains_subcircuit(statement, _known=None):
     return False
 
 
-def rebuild_macro_in_context(macro, context, gate_context):
+def rebuild_macro_in_context(macro, context, gate_context, require_defined=False):
     """Rebuild a built macro with the given context. This allows this
     macro to refer to other macros that were unknown to it when it was
     originally built.
@@ -438,7 +442,7 @@ def rebuild_macro_in_context(macro, context, gate_context):
 
     """
 
-    visitor = RebuildMacroInContextVisitor(context, gate_context)
+    visitor = RebuildMacroInContextVisitor(context, gate_context, require_defined)
     _changed, new_macro = visitor.visit(macro)
     return new_macro
 
@@ -452,9 +456,12 @@ class RebuildMacroInContextVisitor(Visitor):
 
     """
 
-    def __init__(self, context, gate_context):
+    def __init__(self, context, gate_context, require_defined=False):
         self.context = context
         self.gate_context = gate_context
+        # Whether a gate set is in force, i.e. every gate must be defined in
+        # the gate context.
+        self.require_defined = require_defined
 
     def visit_Macro(self, macro):
         changed, new_body = self.visit(macro.body)
@@ -509,7 +516,9 @@ class RebuildMacroInContextVisitor(Visitor):
     def visit_GateStatement(self, gate):
         gate_def = self.gate_context.get(gate.name)
         if gate_def is None:
-            # Shouldn't happen but really none of our business here.
+            if self.require_defined:
+                # Built before the gate set was known, and not part of it.
+                raise JaqalError(f"No gate {gate.name} defined")
             return False, gate
         if isinstance(gate_def, Macro):
             if gate_def == gate.gate_def:
@@ -518,6 +527,10 @@ class RebuildMacroInContextVisitor(Visitor):
             args = gate.parameters.values()
             new_gate = gate_def(*args)
             return True, new_gate
+        elif self.require_defined and gate_def is not gate.gate_def:
+            # Built before the gate set was known: call the real definition,
+            # which also checks the arguments.
+            return True, gate_def(*gate.parameters.values())
         else:
             return False, gate
 
